@@ -215,6 +215,12 @@ let rec seq start = function
 | O -> []
 | S len1 -> start :: (seq (S start) len1)
 
+(** val repeat : 'a1 -> nat -> 'a1 list **)
+
+let rec repeat x = function
+| O -> []
+| S k -> x :: (repeat x k)
+
 type positive =
 | XI of positive
 | XO of positive
@@ -1598,8 +1604,9 @@ type op =
 | OFirst
 | OLast
 | OGet of nat
-| OStore of bool
+| OStore of bool * nat * nat
 | ODelete of nat
+| OTrunc of nat
 | OSet
 | OGetS
 | OClose
@@ -1613,12 +1620,13 @@ type outcome =
 | MetaErr
 | Panic
 
-type hnd = { h_base : nat; h_cnt : nat; h_sealed : bool; h_closes : nat }
+type hnd = { h_base : nat; h_ents : nat list; h_wr : nat; h_syn : nat;
+             h_cnt : nat; h_sealed : bool; h_closes : nat }
 
 type fin =
 | FUnset
 | FNil
-| FSet of nat list
+| FSet of nat list * nat
 
 type st = { s_ref : nat; s_fin : fin; s_open : bool; s_segs : nat list;
             s_min : nat }
@@ -1633,10 +1641,12 @@ type kont =
 | KUnlock
 | KOuter of nat
 | KRot
+| KRetry
 
 type pc =
 | PIdle
 | PChecked
+| PStErr
 | PLock
 | PLocked
 | PWaiting of nat
@@ -1646,6 +1656,10 @@ type pc =
 | PLoaded of nat
 | PAcq of nat
 | PBody of nat
+| PGetRead of nat * nat
+| PApp1 of nat
+| PApp2 of nat
+| PApp3 of nat
 | PTrig of nat
 | PSend of nat
 | PM0 of kont
@@ -1655,7 +1669,7 @@ type pc =
 | PM4 of nat * fin * kont
 | PRel of nat * outcome * kont
 | PLast of nat * outcome * kont
-| PRun of nat list * outcome * kont
+| PRun of nat list * nat * outcome * kont
 | PUnl of outcome
 | PCFlag
 | PCLock
@@ -1664,7 +1678,7 @@ type pc =
 | PC4
 | PC5 of nat
 | PC6 of nat
-| PCSwapped of nat
+| PCSwapped of nat * nat
 | PC8 of nat
 | PRIdle
 | PRRecv
@@ -1699,7 +1713,8 @@ let dst =
 (** val dh : hnd **)
 
 let dh =
-  { h_base = O; h_cnt = O; h_sealed = false; h_closes = O }
+  { h_base = O; h_ents = []; h_wr = O; h_syn = O; h_cnt = O; h_sealed =
+    false; h_closes = O }
 
 (** val getst : shared -> nat -> st **)
 
@@ -1792,11 +1807,16 @@ let st_fin s f =
 let upd_st g x s =
   set_states g (upd g.g_states x s)
 
+(** val upd_h : shared -> nat -> hnd -> shared **)
+
+let upd_h g h v =
+  set_hnds g (upd g.g_hnds h v)
+
 (** val close_h : hnd -> hnd **)
 
 let close_h h =
-  { h_base = h.h_base; h_cnt = h.h_cnt; h_sealed = h.h_sealed; h_closes = (S
-    h.h_closes) }
+  { h_base = h.h_base; h_ents = h.h_ents; h_wr = h.h_wr; h_syn = h.h_syn;
+    h_cnt = h.h_cnt; h_sealed = h.h_sealed; h_closes = (S h.h_closes) }
 
 (** val close_all : hnd list -> nat list -> hnd list **)
 
@@ -1833,15 +1853,22 @@ let rec seg_for g segs i acc =
   | h :: r ->
     if Nat.leb (geth g h).h_base i then seg_for g r i (Some h) else acc
 
-(** val get_log : shared -> st -> nat -> outcome **)
+(** val find_log : shared -> st -> nat -> nat option **)
 
-let get_log g s i =
+let find_log g s i =
   let f = first_index g s in
   if (&&) ((&&) (Nat.ltb O f) (Nat.leb f i)) (Nat.leb i (last_index g s))
-  then (match seg_for g s.s_segs i None with
-        | Some h -> if Nat.ltb O (geth g h).h_closes then IOErr else Ok O
-        | None -> NotFound)
-  else NotFound
+  then seg_for g s.s_segs i None
+  else None
+
+(** val read_log : shared -> nat -> nat -> outcome **)
+
+let read_log g h i =
+  let v = geth g h in
+  let pos = sub i v.h_base in
+  if Nat.leb (length v.h_ents) pos
+  then Panic
+  else if Nat.ltb O v.h_closes then IOErr else Ok (nth pos v.h_ents O)
 
 (** val split_head :
     shared -> nat -> nat -> nat list -> nat list * nat list **)
@@ -1856,22 +1883,37 @@ let rec split_head g newMin lastIdx segs = match segs with
      then ([], segs)
      else let (a, b) = split_head g newMin lastIdx r in ((h :: a), b))
 
+(** val split_tail : shared -> nat -> nat list -> nat list * nat list **)
+
+let rec split_tail g newMax segs = match segs with
+| [] -> ([], [])
+| h :: r ->
+  if Nat.leb (geth g h).h_base newMax
+  then let (a, b) = split_tail g newMax r in ((h :: a), b)
+  else ([], segs)
+
 (** val new_hnd : nat -> hnd **)
 
 let new_hnd base =
-  { h_base = base; h_cnt = O; h_sealed = false; h_closes = O }
+  { h_base = base; h_ents = []; h_wr = O; h_syn = O; h_cnt = O; h_sealed =
+    false; h_closes = O }
 
 (** val mk_state : nat list -> nat -> st **)
 
 let mk_state segs mn =
-  { s_ref = O; s_fin = FUnset; s_open = true; s_segs = segs; s_min = mn }
+  { s_ref = (S O); s_fin = FUnset; s_open = true; s_segs = segs; s_min = mn }
+
+(** val empty_state : st **)
+
+let empty_state =
+  { s_ref = (S O); s_fin = FUnset; s_open = false; s_segs = []; s_min = O }
 
 (** val publish : shared -> st -> shared **)
 
 let publish g s =
   set_cur g (length g.g_states) (app g.g_states (s :: []))
 
-(** val do_rotate : shared -> nat -> shared * fin **)
+(** val do_rotate : shared -> nat -> shared * nat list **)
 
 let do_rotate g y =
   let s = getst g y in
@@ -1879,9 +1921,9 @@ let do_rotate g y =
   let nh = length g.g_hnds in
   let g1 = set_hnds g (app g.g_hnds ((new_hnd (add t.h_base t.h_cnt)) :: []))
   in
-  ((publish g1 (mk_state (app s.s_segs (nh :: [])) s.s_min)), FNil)
+  ((publish g1 (mk_state (app s.s_segs (nh :: [])) s.s_min)), [])
 
-(** val do_trunc_head : shared -> nat -> nat -> shared * fin **)
+(** val do_trunc_head : shared -> nat -> nat -> shared * nat list **)
 
 let do_trunc_head g y newMin =
   let s = getst g y in
@@ -1891,8 +1933,44 @@ let do_trunc_head g y newMin =
    | [] ->
      let nh = length g.g_hnds in
      let g1 = set_hnds g (app g.g_hnds ((new_hnd (add li (S O))) :: [])) in
-     ((publish g1 (mk_state (nh :: []) (add li (S O)))), (FSet rm))
-   | _ :: _ -> ((publish g (mk_state keep newMin)), (FSet rm)))
+     ((publish g1 (mk_state (nh :: []) (add li (S O)))), rm)
+   | _ :: _ -> ((publish g (mk_state keep newMin)), rm))
+
+(** val seal_h : hnd -> hnd **)
+
+let seal_h h =
+  { h_base = h.h_base; h_ents = h.h_ents; h_wr = h.h_wr; h_syn = h.h_syn;
+    h_cnt = h.h_cnt; h_sealed = true; h_closes = h.h_closes }
+
+(** val do_trunc_tail : shared -> nat -> nat -> shared * nat list **)
+
+let do_trunc_tail g y newMax =
+  let s = getst g y in
+  let (keep, rm) = split_tail g newMax s.s_segs in
+  let nh = length g.g_hnds in
+  let g1 = set_hnds g (app g.g_hnds ((new_hnd (add newMax (S O))) :: [])) in
+  ((publish g1 (mk_state (app keep (nh :: [])) s.s_min)), rm)
+
+type dkind =
+| DNoop
+| DHead of nat
+| DTail of nat
+
+(** val classify : shared -> st -> op -> dkind **)
+
+let classify g s o =
+  let f = first_index g s in
+  let l = last_index g s in
+  (match o with
+   | ODelete n0 ->
+     if (||) (Nat.ltb n0 f) (Nat.ltb l (S O))
+     then DNoop
+     else DHead (add n0 (S O))
+   | OTrunc n0 ->
+     if Nat.leb l n0
+     then DNoop
+     else if Nat.ltb n0 f then DHead (add l (S O)) else DTail n0
+   | _ -> DNoop)
 
 (** val cur_op : thread -> op option **)
 
@@ -1919,8 +1997,9 @@ let panic th =
 (** val is_locking : op -> bool **)
 
 let is_locking = function
-| OStore _ -> true
+| OStore (_, _, _) -> true
 | ODelete _ -> true
+| OTrunc _ -> true
 | _ -> false
 
 (** val continue : thread -> outcome -> kont -> thread **)
@@ -1930,6 +2009,19 @@ let continue th r = function
 | KUnlock -> setpc th (PUnl r)
 | KOuter x -> setpc th (PRel (x, r, KUnlock))
 | KRot -> setpc th PRT3
+| KRetry -> setpc th PLoad
+
+(** val with_ents : hnd -> nat list -> bool -> hnd **)
+
+let with_ents h e sealed =
+  { h_base = h.h_base; h_ents = e; h_wr = h.h_wr; h_syn = h.h_syn; h_cnt =
+    h.h_cnt; h_sealed = sealed; h_closes = h.h_closes }
+
+(** val with_io : hnd -> nat -> nat -> nat -> hnd **)
+
+let with_io h wr syn cnt =
+  { h_base = h.h_base; h_ents = h.h_ents; h_wr = wr; h_syn = syn; h_cnt =
+    cnt; h_sealed = h.h_sealed; h_closes = h.h_closes }
 
 (** val step_thread : shared -> tid -> thread -> (shared * thread) option **)
 
@@ -1954,18 +2046,22 @@ let step_thread g me th =
        (match o with
         | OSet ->
           if Nat.ltb O g.g_meta_closes
-          then Some (g, (finish th MetaErr))
+          then Some (g, (setpc th PStErr))
           else Some ((set_meta g g.g_meta_closes (S g.g_stable)),
                  (finish th (Ok O)))
         | OGetS ->
           if Nat.ltb O g.g_meta_closes
-          then Some (g, (finish th MetaErr))
+          then Some (g, (setpc th PStErr))
           else Some (g, (finish th (Ok g.g_stable)))
         | _ ->
           if is_locking o
           then Some (g, (setpc th PLock))
           else Some (g, (setpc th PLoad)))
      | None -> None)
+  | PStErr ->
+    if g.g_closed
+    then Some (g, (finish th ErrClosed))
+    else Some (g, (finish th MetaErr))
   | PLock ->
     (match g.g_mu with
      | Some _ -> None
@@ -1988,11 +2084,13 @@ let step_thread g me th =
   | PAcq x ->
     (match cur_op th with
      | Some o ->
-       if (getst g x).s_open
-       then Some (g, (setpc th (PBody x)))
-       else Some (g,
-              (setpc th (PRel (x, ErrClosed,
-                (if is_locking o then KUnlock else KRet)))))
+       if negb (Nat.eqb g.g_cur x)
+       then Some (g, (setpc th (PRel (x, ErrClosed, KRetry))))
+       else if (getst g x).s_open
+            then Some (g, (setpc th (PBody x)))
+            else Some (g,
+                   (setpc th (PRel (x, ErrClosed,
+                     (if is_locking o then KUnlock else KRet)))))
      | None -> None)
   | PBody x ->
     let s = getst g x in
@@ -2006,27 +2104,54 @@ let step_thread g me th =
              | OLast ->
                Some (g, (setpc th (PRel (x, (Ok (last_index g s)), KRet))))
              | OGet i ->
-               Some (g, (setpc th (PRel (x, (get_log g s i), KRet))))
-             | OStore seal ->
+               (match find_log g s i with
+                | Some h -> Some (g, (setpc th (PGetRead (x, h))))
+                | None -> Some (g, (setpc th (PRel (x, NotFound, KRet)))))
+             | OStore (seal, tag, n0) ->
                let t = tail_of s in
                let h = geth g t in
                if h.h_sealed
                then Some (g, (setpc th (PRel (x, ErrSealed, KUnlock))))
-               else let h' = { h_base = h.h_base; h_cnt = (S h.h_cnt);
-                      h_sealed = seal; h_closes = h.h_closes }
-                    in
-                    let g' = set_hnds g (upd g.g_hnds t h') in
-                    if seal
-                    then Some (g', (setpc th (PTrig x)))
-                    else Some (g', (setpc th (PRel (x, (Ok O), KUnlock))))
+               else Some
+                      ((upd_h g t
+                         (with_ents h (app h.h_ents (repeat tag n0)) seal)),
+                      (setpc th (PApp1 x)))
              | ODelete n0 ->
-               let f = first_index g s in
-               let l = last_index g s in
-               if (||) (Nat.ltb n0 f) (Nat.ltb l (S O))
-               then Some (g, (setpc th (PRel (x, (Ok O), KUnlock))))
-               else Some (g, (setpc th (PM0 (KOuter x))))
+               (match classify g s (ODelete n0) with
+                | DNoop -> Some (g, (setpc th (PRel (x, (Ok O), KUnlock))))
+                | _ -> Some (g, (setpc th (PM0 (KOuter x)))))
+             | OTrunc n0 ->
+               (match classify g s (OTrunc n0) with
+                | DNoop -> Some (g, (setpc th (PRel (x, (Ok O), KUnlock))))
+                | _ -> Some (g, (setpc th (PM0 (KOuter x)))))
              | _ -> None)
           | None -> None)
+  | PGetRead (x, h) ->
+    (match cur_op th with
+     | Some o ->
+       (match o with
+        | OGet i ->
+          (match read_log g h i with
+           | Panic -> Some (g, (panic th))
+           | x0 -> Some (g, (setpc th (PRel (x, x0, KRet)))))
+        | _ -> None)
+     | None -> None)
+  | PApp1 x ->
+    let t = tail_of (getst g x) in
+    let h = geth g t in
+    Some ((upd_h g t (with_io h (length h.h_ents) h.h_syn h.h_cnt)),
+    (setpc th (PApp2 x)))
+  | PApp2 x ->
+    let t = tail_of (getst g x) in
+    let h = geth g t in
+    Some ((upd_h g t (with_io h h.h_wr h.h_wr h.h_cnt)), (setpc th (PApp3 x)))
+  | PApp3 x ->
+    let t = tail_of (getst g x) in
+    let h = geth g t in
+    let g' = upd_h g t (with_io h h.h_wr h.h_syn (length h.h_ents)) in
+    if h.h_sealed
+    then Some (g', (setpc th (PTrig x)))
+    else Some (g', (setpc th (PRel (x, (Ok O), KUnlock))))
   | PTrig x ->
     if g.g_closed
     then Some (g, (setpc th (PRel (x, (Ok O), KUnlock))))
@@ -2047,22 +2172,55 @@ let step_thread g me th =
     then Some (g, (panic th))
     else Some ((upd_st g y (st_ref s (S s.s_ref))), (setpc th (PM2 (y, k))))
   | PM2 (y, k) ->
-    if Nat.ltb O g.g_meta_closes
-    then Some (g, (setpc th (PRel (y, MetaErr, k))))
-    else Some (g, (setpc th (PM3 (y, k))))
-  | PM3 (y, k) ->
-    let (g', f) =
+    let g1 =
       match k with
+      | KOuter _ ->
+        (match cur_op th with
+         | Some o ->
+           (match o with
+            | OTrunc n0 ->
+              (match classify g (getst g y) (OTrunc n0) with
+               | DTail m ->
+                 let t = tail_of (getst g y) in
+                 if Nat.leb (geth g t).h_base m
+                 then upd_h g t (seal_h (geth g t))
+                 else g
+               | _ -> g)
+            | _ -> g)
+         | None -> g)
+      | _ -> g
+    in
+    if Nat.ltb O g.g_meta_closes
+    then Some (g1, (setpc th (PRel (y, MetaErr, k))))
+    else Some (g1, (setpc th (PM3 (y, k))))
+  | PM3 (y, k) ->
+    let (g', hs) =
+      match k with
+      | KRet ->
+        (match cur_op th with
+         | Some o ->
+           (match classify g (getst g y) o with
+            | DNoop ->
+              ((publish g (mk_state (getst g y).s_segs (getst g y).s_min)),
+                [])
+            | DHead m -> do_trunc_head g y m
+            | DTail m -> do_trunc_tail g y m)
+         | None ->
+           ((publish g (mk_state (getst g y).s_segs (getst g y).s_min)), []))
       | KRot -> do_rotate g y
       | _ ->
         (match cur_op th with
          | Some o ->
-           (match o with
-            | ODelete n0 -> do_trunc_head g y (add n0 (S O))
-            | _ -> (g, FNil))
-         | None -> (g, FNil))
+           (match classify g (getst g y) o with
+            | DNoop ->
+              ((publish g (mk_state (getst g y).s_segs (getst g y).s_min)),
+                [])
+            | DHead m -> do_trunc_head g y m
+            | DTail m -> do_trunc_tail g y m)
+         | None ->
+           ((publish g (mk_state (getst g y).s_segs (getst g y).s_min)), []))
     in
-    Some (g', (setpc th (PM4 (y, f, k))))
+    Some (g', (setpc th (PM4 (y, (FSet (hs, g'.g_cur)), k))))
   | PM4 (y, f, k) ->
     Some ((upd_st g y (st_fin (getst g y) f)),
       (setpc th (PRel (y, (Ok O), k))))
@@ -2076,10 +2234,10 @@ let step_thread g me th =
     let s = getst g x in
     let g' = upd_st g x (st_fin s FNil) in
     (match s.s_fin with
-     | FSet hs -> Some (g', (setpc th (PRun (hs, r, k))))
+     | FSet (hs, sc) -> Some (g', (setpc th (PRun (hs, sc, r, k))))
      | _ -> Some (g', (continue th r k)))
-  | PRun (hs, r, k) ->
-    Some ((set_hnds g (close_all g.g_hnds hs)), (continue th r k))
+  | PRun (hs, sc, r, k) ->
+    Some ((set_hnds g (close_all g.g_hnds hs)), (setpc th (PRel (sc, r, k))))
   | PUnl r -> Some ((set_mu g None), (finish th r))
   | PCFlag -> Some (g, (setpc th PCLock))
   | PCLock ->
@@ -2101,12 +2259,15 @@ let step_thread g me th =
   | PC5 x ->
     let s = getst g x in
     Some ((upd_st g x (st_ref s (S s.s_ref))), (setpc th (PC6 x)))
-  | PC6 x -> Some ((publish g dst), (setpc th (PCSwapped x)))
-  | PCSwapped x ->
+  | PC6 x ->
+    Some ((publish g empty_state),
+      (setpc th (PCSwapped (x, (length g.g_states)))))
+  | PCSwapped (x, e) ->
     let s = getst g x in
     if negb s.s_open
     then Some (g, (panic th))
-    else Some ((upd_st g x (st_fin s (FSet s.s_segs))), (setpc th (PC8 x)))
+    else Some ((upd_st g x (st_fin s (FSet (s.s_segs, e)))),
+           (setpc th (PC8 x)))
   | PC8 x ->
     Some ((set_meta g (S g.g_meta_closes) g.g_stable),
       (setpc th (PRel (x, (Ok O), KUnlock))))
@@ -2151,9 +2312,9 @@ let step s t =
 
 let init_shared =
   { g_closed = false; g_mu = None; g_trig = false; g_trig_closed = false;
-    g_await = None; g_chans = []; g_cur = O; g_states =
-    ((mk_state (O :: []) (S O)) :: []); g_hnds = ((new_hnd (S O)) :: []);
-    g_meta_closes = O; g_stable = O }
+    g_await = None; g_chans = []; g_cur = O; g_states = ({ s_ref = O; s_fin =
+    FUnset; s_open = true; s_segs = (O :: []); s_min = (S O) } :: []);
+    g_hnds = ((new_hnd (S O)) :: []); g_meta_closes = O; g_stable = O }
 
 (** val caller : op list -> thread **)
 
@@ -2178,12 +2339,16 @@ let pc_point = function
 | PLocked -> true
 | PWaiting _ -> true
 | PLoaded _ -> true
+| PGetRead (_, _) -> true
+| PApp1 _ -> true
+| PApp2 _ -> true
+| PApp3 _ -> true
 | PM3 (_, _) -> true
 | PM4 (_, _, _) -> true
 | PLast (_, _, _) -> true
 | PCFlag -> true
 | PCLocked -> true
-| PCSwapped _ -> true
+| PCSwapped (_, _) -> true
 | PRRecv -> true
 | PRLocked -> true
 | _ -> false
@@ -2353,50 +2518,1960 @@ let parse_op14 = function
                         | XH ->
                           (match r with
                            | [] -> None
-                           | n1 :: l ->
-                             (match n1 with
-                              | N0 -> None
+                           | sl :: l ->
+                             (match sl with
+                              | N0 ->
+                                (match l with
+                                 | [] -> None
+                                 | n1 :: r0 ->
+                                   (match n1 with
+                                    | N0 -> None
+                                    | Npos p6 ->
+                                      (match p6 with
+                                       | XI p7 ->
+                                         (match p7 with
+                                          | XI p8 ->
+                                            (match p8 with
+                                             | XI p9 ->
+                                               (match p9 with
+                                                | XI p10 ->
+                                                  (match p10 with
+                                                   | XI p11 ->
+                                                     (match p11 with
+                                                      | XO p12 ->
+                                                        (match p12 with
+                                                         | XH ->
+                                                           (match split_on
+                                                                    (Npos (XI
+                                                                    (XI (XI
+                                                                    (XI (XI
+                                                                    (XO
+                                                                    XH)))))))
+                                                                    r0 with
+                                                            | [] -> None
+                                                            | tg :: l0 ->
+                                                              (match l0 with
+                                                               | [] -> None
+                                                               | n2 :: l1 ->
+                                                                 (match l1 with
+                                                                  | [] ->
+                                                                    (match 
+                                                                    hexnat tg with
+                                                                    | Some tg0 ->
+                                                                    (match 
+                                                                    hexnat n2 with
+                                                                    | Some n3 ->
+                                                                    (match n3 with
+                                                                    | O ->
+                                                                    None
+                                                                    | S n4 ->
+                                                                    if 
+                                                                    N.eqb sl
+                                                                    (Npos (XO
+                                                                    (XO (XO
+                                                                    (XO (XI
+                                                                    XH))))))
+                                                                    then 
+                                                                    Some
+                                                                    (OStore
+                                                                    (false,
+                                                                    tg0, (S
+                                                                    n4)))
+                                                                    else 
+                                                                    if 
+                                                                    N.eqb sl
+                                                                    (Npos (XI
+                                                                    (XO (XO
+                                                                    (XO (XI
+                                                                    XH))))))
+                                                                    then 
+                                                                    Some
+                                                                    (OStore
+                                                                    (true,
+                                                                    tg0, (S
+                                                                    n4)))
+                                                                    else None)
+                                                                    | None ->
+                                                                    None)
+                                                                    | None ->
+                                                                    None)
+                                                                  | _ :: _ ->
+                                                                    None)))
+                                                         | _ -> None)
+                                                      | _ -> None)
+                                                   | _ -> None)
+                                                | _ -> None)
+                                             | _ -> None)
+                                          | _ -> None)
+                                       | _ -> None)))
                               | Npos p6 ->
                                 (match p6 with
                                  | XI p7 ->
                                    (match p7 with
+                                    | XI _ ->
+                                      (match l with
+                                       | [] -> None
+                                       | n1 :: r0 ->
+                                         (match n1 with
+                                          | N0 -> None
+                                          | Npos p9 ->
+                                            (match p9 with
+                                             | XI p10 ->
+                                               (match p10 with
+                                                | XI p11 ->
+                                                  (match p11 with
+                                                   | XI p12 ->
+                                                     (match p12 with
+                                                      | XI p13 ->
+                                                        (match p13 with
+                                                         | XI p14 ->
+                                                           (match p14 with
+                                                            | XO p15 ->
+                                                              (match p15 with
+                                                               | XH ->
+                                                                 (match 
+                                                                  split_on
+                                                                    (Npos (XI
+                                                                    (XI (XI
+                                                                    (XI (XI
+                                                                    (XO
+                                                                    XH)))))))
+                                                                    r0 with
+                                                                  | [] -> None
+                                                                  | tg :: l0 ->
+                                                                    (match l0 with
+                                                                    | [] ->
+                                                                    None
+                                                                    | n2 :: l1 ->
+                                                                    (match l1 with
+                                                                    | [] ->
+                                                                    (match 
+                                                                    hexnat tg with
+                                                                    | Some tg0 ->
+                                                                    (match 
+                                                                    hexnat n2 with
+                                                                    | Some n3 ->
+                                                                    (match n3 with
+                                                                    | O ->
+                                                                    None
+                                                                    | S n4 ->
+                                                                    if 
+                                                                    N.eqb sl
+                                                                    (Npos (XO
+                                                                    (XO (XO
+                                                                    (XO (XI
+                                                                    XH))))))
+                                                                    then 
+                                                                    Some
+                                                                    (OStore
+                                                                    (false,
+                                                                    tg0, (S
+                                                                    n4)))
+                                                                    else 
+                                                                    if 
+                                                                    N.eqb sl
+                                                                    (Npos (XI
+                                                                    (XO (XO
+                                                                    (XO (XI
+                                                                    XH))))))
+                                                                    then 
+                                                                    Some
+                                                                    (OStore
+                                                                    (true,
+                                                                    tg0, (S
+                                                                    n4)))
+                                                                    else None)
+                                                                    | None ->
+                                                                    None)
+                                                                    | None ->
+                                                                    None)
+                                                                    | _ :: _ ->
+                                                                    None)))
+                                                               | _ -> None)
+                                                            | _ -> None)
+                                                         | _ -> None)
+                                                      | _ -> None)
+                                                   | _ -> None)
+                                                | _ -> None)
+                                             | _ -> None)))
                                     | XO p8 ->
                                       (match p8 with
+                                       | XI _ ->
+                                         (match l with
+                                          | [] -> None
+                                          | n1 :: r0 ->
+                                            (match n1 with
+                                             | N0 -> None
+                                             | Npos p10 ->
+                                               (match p10 with
+                                                | XI p11 ->
+                                                  (match p11 with
+                                                   | XI p12 ->
+                                                     (match p12 with
+                                                      | XI p13 ->
+                                                        (match p13 with
+                                                         | XI p14 ->
+                                                           (match p14 with
+                                                            | XI p15 ->
+                                                              (match p15 with
+                                                               | XO p16 ->
+                                                                 (match p16 with
+                                                                  | XH ->
+                                                                    (match 
+                                                                    split_on
+                                                                    (Npos (XI
+                                                                    (XI (XI
+                                                                    (XI (XI
+                                                                    (XO
+                                                                    XH)))))))
+                                                                    r0 with
+                                                                    | [] ->
+                                                                    None
+                                                                    | tg :: l0 ->
+                                                                    (match l0 with
+                                                                    | [] ->
+                                                                    None
+                                                                    | n2 :: l1 ->
+                                                                    (match l1 with
+                                                                    | [] ->
+                                                                    (match 
+                                                                    hexnat tg with
+                                                                    | Some tg0 ->
+                                                                    (match 
+                                                                    hexnat n2 with
+                                                                    | Some n3 ->
+                                                                    (match n3 with
+                                                                    | O ->
+                                                                    None
+                                                                    | S n4 ->
+                                                                    if 
+                                                                    N.eqb sl
+                                                                    (Npos (XO
+                                                                    (XO (XO
+                                                                    (XO (XI
+                                                                    XH))))))
+                                                                    then 
+                                                                    Some
+                                                                    (OStore
+                                                                    (false,
+                                                                    tg0, (S
+                                                                    n4)))
+                                                                    else 
+                                                                    if 
+                                                                    N.eqb sl
+                                                                    (Npos (XI
+                                                                    (XO (XO
+                                                                    (XO (XI
+                                                                    XH))))))
+                                                                    then 
+                                                                    Some
+                                                                    (OStore
+                                                                    (true,
+                                                                    tg0, (S
+                                                                    n4)))
+                                                                    else None)
+                                                                    | None ->
+                                                                    None)
+                                                                    | None ->
+                                                                    None)
+                                                                    | _ :: _ ->
+                                                                    None)))
+                                                                  | _ -> None)
+                                                               | _ -> None)
+                                                            | _ -> None)
+                                                         | _ -> None)
+                                                      | _ -> None)
+                                                   | _ -> None)
+                                                | _ -> None)))
                                        | XO p9 ->
                                          (match p9 with
+                                          | XI _ ->
+                                            (match l with
+                                             | [] -> None
+                                             | n1 :: r0 ->
+                                               (match n1 with
+                                                | N0 -> None
+                                                | Npos p11 ->
+                                                  (match p11 with
+                                                   | XI p12 ->
+                                                     (match p12 with
+                                                      | XI p13 ->
+                                                        (match p13 with
+                                                         | XI p14 ->
+                                                           (match p14 with
+                                                            | XI p15 ->
+                                                              (match p15 with
+                                                               | XI p16 ->
+                                                                 (match p16 with
+                                                                  | XO p17 ->
+                                                                    (match p17 with
+                                                                    | XH ->
+                                                                    (match 
+                                                                    split_on
+                                                                    (Npos (XI
+                                                                    (XI (XI
+                                                                    (XI (XI
+                                                                    (XO
+                                                                    XH)))))))
+                                                                    r0 with
+                                                                    | [] ->
+                                                                    None
+                                                                    | tg :: l0 ->
+                                                                    (match l0 with
+                                                                    | [] ->
+                                                                    None
+                                                                    | n2 :: l1 ->
+                                                                    (match l1 with
+                                                                    | [] ->
+                                                                    (match 
+                                                                    hexnat tg with
+                                                                    | Some tg0 ->
+                                                                    (match 
+                                                                    hexnat n2 with
+                                                                    | Some n3 ->
+                                                                    (match n3 with
+                                                                    | O ->
+                                                                    None
+                                                                    | S n4 ->
+                                                                    if 
+                                                                    N.eqb sl
+                                                                    (Npos (XO
+                                                                    (XO (XO
+                                                                    (XO (XI
+                                                                    XH))))))
+                                                                    then 
+                                                                    Some
+                                                                    (OStore
+                                                                    (false,
+                                                                    tg0, (S
+                                                                    n4)))
+                                                                    else 
+                                                                    if 
+                                                                    N.eqb sl
+                                                                    (Npos (XI
+                                                                    (XO (XO
+                                                                    (XO (XI
+                                                                    XH))))))
+                                                                    then 
+                                                                    Some
+                                                                    (OStore
+                                                                    (true,
+                                                                    tg0, (S
+                                                                    n4)))
+                                                                    else None)
+                                                                    | None ->
+                                                                    None)
+                                                                    | None ->
+                                                                    None)
+                                                                    | _ :: _ ->
+                                                                    None)))
+                                                                    | _ ->
+                                                                    None)
+                                                                  | _ -> None)
+                                                               | _ -> None)
+                                                            | _ -> None)
+                                                         | _ -> None)
+                                                      | _ -> None)
+                                                   | _ -> None)))
                                           | XO p10 ->
                                             (match p10 with
                                              | XI p11 ->
                                                (match p11 with
                                                 | XH ->
                                                   (match l with
-                                                   | [] -> Some (OStore true)
-                                                   | _ :: _ -> None)
+                                                   | [] ->
+                                                     Some (OStore (true, O,
+                                                       (S O)))
+                                                   | n1 :: r0 ->
+                                                     (match n1 with
+                                                      | N0 -> None
+                                                      | Npos p12 ->
+                                                        (match p12 with
+                                                         | XI p13 ->
+                                                           (match p13 with
+                                                            | XI p14 ->
+                                                              (match p14 with
+                                                               | XI p15 ->
+                                                                 (match p15 with
+                                                                  | XI p16 ->
+                                                                    (match p16 with
+                                                                    | XI p17 ->
+                                                                    (match p17 with
+                                                                    | XO p18 ->
+                                                                    (match p18 with
+                                                                    | XH ->
+                                                                    (match 
+                                                                    split_on
+                                                                    (Npos (XI
+                                                                    (XI (XI
+                                                                    (XI (XI
+                                                                    (XO
+                                                                    XH)))))))
+                                                                    r0 with
+                                                                    | [] ->
+                                                                    None
+                                                                    | tg :: l0 ->
+                                                                    (match l0 with
+                                                                    | [] ->
+                                                                    None
+                                                                    | n2 :: l1 ->
+                                                                    (match l1 with
+                                                                    | [] ->
+                                                                    (match 
+                                                                    hexnat tg with
+                                                                    | Some tg0 ->
+                                                                    (match 
+                                                                    hexnat n2 with
+                                                                    | Some n3 ->
+                                                                    (match n3 with
+                                                                    | O ->
+                                                                    None
+                                                                    | S n4 ->
+                                                                    if 
+                                                                    N.eqb sl
+                                                                    (Npos (XO
+                                                                    (XO (XO
+                                                                    (XO (XI
+                                                                    XH))))))
+                                                                    then 
+                                                                    Some
+                                                                    (OStore
+                                                                    (false,
+                                                                    tg0, (S
+                                                                    n4)))
+                                                                    else 
+                                                                    if 
+                                                                    N.eqb sl
+                                                                    (Npos (XI
+                                                                    (XO (XO
+                                                                    (XO (XI
+                                                                    XH))))))
+                                                                    then 
+                                                                    Some
+                                                                    (OStore
+                                                                    (true,
+                                                                    tg0, (S
+                                                                    n4)))
+                                                                    else None)
+                                                                    | None ->
+                                                                    None)
+                                                                    | None ->
+                                                                    None)
+                                                                    | _ :: _ ->
+                                                                    None)))
+                                                                    | _ ->
+                                                                    None)
+                                                                    | _ ->
+                                                                    None)
+                                                                    | _ ->
+                                                                    None)
+                                                                  | _ -> None)
+                                                               | _ -> None)
+                                                            | _ -> None)
+                                                         | _ -> None)))
+                                                | _ ->
+                                                  (match l with
+                                                   | [] -> None
+                                                   | n1 :: r0 ->
+                                                     (match n1 with
+                                                      | N0 -> None
+                                                      | Npos p13 ->
+                                                        (match p13 with
+                                                         | XI p14 ->
+                                                           (match p14 with
+                                                            | XI p15 ->
+                                                              (match p15 with
+                                                               | XI p16 ->
+                                                                 (match p16 with
+                                                                  | XI p17 ->
+                                                                    (match p17 with
+                                                                    | XI p18 ->
+                                                                    (match p18 with
+                                                                    | XO p19 ->
+                                                                    (match p19 with
+                                                                    | XH ->
+                                                                    (match 
+                                                                    split_on
+                                                                    (Npos (XI
+                                                                    (XI (XI
+                                                                    (XI (XI
+                                                                    (XO
+                                                                    XH)))))))
+                                                                    r0 with
+                                                                    | [] ->
+                                                                    None
+                                                                    | tg :: l0 ->
+                                                                    (match l0 with
+                                                                    | [] ->
+                                                                    None
+                                                                    | n2 :: l1 ->
+                                                                    (match l1 with
+                                                                    | [] ->
+                                                                    (match 
+                                                                    hexnat tg with
+                                                                    | Some tg0 ->
+                                                                    (match 
+                                                                    hexnat n2 with
+                                                                    | Some n3 ->
+                                                                    (match n3 with
+                                                                    | O ->
+                                                                    None
+                                                                    | S n4 ->
+                                                                    if 
+                                                                    N.eqb sl
+                                                                    (Npos (XO
+                                                                    (XO (XO
+                                                                    (XO (XI
+                                                                    XH))))))
+                                                                    then 
+                                                                    Some
+                                                                    (OStore
+                                                                    (false,
+                                                                    tg0, (S
+                                                                    n4)))
+                                                                    else 
+                                                                    if 
+                                                                    N.eqb sl
+                                                                    (Npos (XI
+                                                                    (XO (XO
+                                                                    (XO (XI
+                                                                    XH))))))
+                                                                    then 
+                                                                    Some
+                                                                    (OStore
+                                                                    (true,
+                                                                    tg0, (S
+                                                                    n4)))
+                                                                    else None)
+                                                                    | None ->
+                                                                    None)
+                                                                    | None ->
+                                                                    None)
+                                                                    | _ :: _ ->
+                                                                    None)))
+                                                                    | _ ->
+                                                                    None)
+                                                                    | _ ->
+                                                                    None)
+                                                                    | _ ->
+                                                                    None)
+                                                                  | _ -> None)
+                                                               | _ -> None)
+                                                            | _ -> None)
+                                                         | _ -> None))))
+                                             | XO _ ->
+                                               (match l with
+                                                | [] -> None
+                                                | n1 :: r0 ->
+                                                  (match n1 with
+                                                   | N0 -> None
+                                                   | Npos p12 ->
+                                                     (match p12 with
+                                                      | XI p13 ->
+                                                        (match p13 with
+                                                         | XI p14 ->
+                                                           (match p14 with
+                                                            | XI p15 ->
+                                                              (match p15 with
+                                                               | XI p16 ->
+                                                                 (match p16 with
+                                                                  | XI p17 ->
+                                                                    (match p17 with
+                                                                    | XO p18 ->
+                                                                    (match p18 with
+                                                                    | XH ->
+                                                                    (match 
+                                                                    split_on
+                                                                    (Npos (XI
+                                                                    (XI (XI
+                                                                    (XI (XI
+                                                                    (XO
+                                                                    XH)))))))
+                                                                    r0 with
+                                                                    | [] ->
+                                                                    None
+                                                                    | tg :: l0 ->
+                                                                    (match l0 with
+                                                                    | [] ->
+                                                                    None
+                                                                    | n2 :: l1 ->
+                                                                    (match l1 with
+                                                                    | [] ->
+                                                                    (match 
+                                                                    hexnat tg with
+                                                                    | Some tg0 ->
+                                                                    (match 
+                                                                    hexnat n2 with
+                                                                    | Some n3 ->
+                                                                    (match n3 with
+                                                                    | O ->
+                                                                    None
+                                                                    | S n4 ->
+                                                                    if 
+                                                                    N.eqb sl
+                                                                    (Npos (XO
+                                                                    (XO (XO
+                                                                    (XO (XI
+                                                                    XH))))))
+                                                                    then 
+                                                                    Some
+                                                                    (OStore
+                                                                    (false,
+                                                                    tg0, (S
+                                                                    n4)))
+                                                                    else 
+                                                                    if 
+                                                                    N.eqb sl
+                                                                    (Npos (XI
+                                                                    (XO (XO
+                                                                    (XO (XI
+                                                                    XH))))))
+                                                                    then 
+                                                                    Some
+                                                                    (OStore
+                                                                    (true,
+                                                                    tg0, (S
+                                                                    n4)))
+                                                                    else None)
+                                                                    | None ->
+                                                                    None)
+                                                                    | None ->
+                                                                    None)
+                                                                    | _ :: _ ->
+                                                                    None)))
+                                                                    | _ ->
+                                                                    None)
+                                                                    | _ ->
+                                                                    None)
+                                                                  | _ -> None)
+                                                               | _ -> None)
+                                                            | _ -> None)
+                                                         | _ -> None)
+                                                      | _ -> None)))
+                                             | XH ->
+                                               (match l with
+                                                | [] -> None
+                                                | n1 :: r0 ->
+                                                  (match n1 with
+                                                   | N0 -> None
+                                                   | Npos p11 ->
+                                                     (match p11 with
+                                                      | XI p12 ->
+                                                        (match p12 with
+                                                         | XI p13 ->
+                                                           (match p13 with
+                                                            | XI p14 ->
+                                                              (match p14 with
+                                                               | XI p15 ->
+                                                                 (match p15 with
+                                                                  | XI p16 ->
+                                                                    (match p16 with
+                                                                    | XO p17 ->
+                                                                    (match p17 with
+                                                                    | XH ->
+                                                                    (match 
+                                                                    split_on
+                                                                    (Npos (XI
+                                                                    (XI (XI
+                                                                    (XI (XI
+                                                                    (XO
+                                                                    XH)))))))
+                                                                    r0 with
+                                                                    | [] ->
+                                                                    None
+                                                                    | tg :: l0 ->
+                                                                    (match l0 with
+                                                                    | [] ->
+                                                                    None
+                                                                    | n2 :: l1 ->
+                                                                    (match l1 with
+                                                                    | [] ->
+                                                                    (match 
+                                                                    hexnat tg with
+                                                                    | Some tg0 ->
+                                                                    (match 
+                                                                    hexnat n2 with
+                                                                    | Some n3 ->
+                                                                    (match n3 with
+                                                                    | O ->
+                                                                    None
+                                                                    | S n4 ->
+                                                                    if 
+                                                                    N.eqb sl
+                                                                    (Npos (XO
+                                                                    (XO (XO
+                                                                    (XO (XI
+                                                                    XH))))))
+                                                                    then 
+                                                                    Some
+                                                                    (OStore
+                                                                    (false,
+                                                                    tg0, (S
+                                                                    n4)))
+                                                                    else 
+                                                                    if 
+                                                                    N.eqb sl
+                                                                    (Npos (XI
+                                                                    (XO (XO
+                                                                    (XO (XI
+                                                                    XH))))))
+                                                                    then 
+                                                                    Some
+                                                                    (OStore
+                                                                    (true,
+                                                                    tg0, (S
+                                                                    n4)))
+                                                                    else None)
+                                                                    | None ->
+                                                                    None)
+                                                                    | None ->
+                                                                    None)
+                                                                    | _ :: _ ->
+                                                                    None)))
+                                                                    | _ ->
+                                                                    None)
+                                                                    | _ ->
+                                                                    None)
+                                                                  | _ -> None)
+                                                               | _ -> None)
+                                                            | _ -> None)
+                                                         | _ -> None)
+                                                      | _ -> None))))
+                                          | XH ->
+                                            (match l with
+                                             | [] -> None
+                                             | n1 :: r0 ->
+                                               (match n1 with
+                                                | N0 -> None
+                                                | Npos p10 ->
+                                                  (match p10 with
+                                                   | XI p11 ->
+                                                     (match p11 with
+                                                      | XI p12 ->
+                                                        (match p12 with
+                                                         | XI p13 ->
+                                                           (match p13 with
+                                                            | XI p14 ->
+                                                              (match p14 with
+                                                               | XI p15 ->
+                                                                 (match p15 with
+                                                                  | XO p16 ->
+                                                                    (match p16 with
+                                                                    | XH ->
+                                                                    (match 
+                                                                    split_on
+                                                                    (Npos (XI
+                                                                    (XI (XI
+                                                                    (XI (XI
+                                                                    (XO
+                                                                    XH)))))))
+                                                                    r0 with
+                                                                    | [] ->
+                                                                    None
+                                                                    | tg :: l0 ->
+                                                                    (match l0 with
+                                                                    | [] ->
+                                                                    None
+                                                                    | n2 :: l1 ->
+                                                                    (match l1 with
+                                                                    | [] ->
+                                                                    (match 
+                                                                    hexnat tg with
+                                                                    | Some tg0 ->
+                                                                    (match 
+                                                                    hexnat n2 with
+                                                                    | Some n3 ->
+                                                                    (match n3 with
+                                                                    | O ->
+                                                                    None
+                                                                    | S n4 ->
+                                                                    if 
+                                                                    N.eqb sl
+                                                                    (Npos (XO
+                                                                    (XO (XO
+                                                                    (XO (XI
+                                                                    XH))))))
+                                                                    then 
+                                                                    Some
+                                                                    (OStore
+                                                                    (false,
+                                                                    tg0, (S
+                                                                    n4)))
+                                                                    else 
+                                                                    if 
+                                                                    N.eqb sl
+                                                                    (Npos (XI
+                                                                    (XO (XO
+                                                                    (XO (XI
+                                                                    XH))))))
+                                                                    then 
+                                                                    Some
+                                                                    (OStore
+                                                                    (true,
+                                                                    tg0, (S
+                                                                    n4)))
+                                                                    else None)
+                                                                    | None ->
+                                                                    None)
+                                                                    | None ->
+                                                                    None)
+                                                                    | _ :: _ ->
+                                                                    None)))
+                                                                    | _ ->
+                                                                    None)
+                                                                  | _ -> None)
+                                                               | _ -> None)
+                                                            | _ -> None)
+                                                         | _ -> None)
+                                                      | _ -> None)
+                                                   | _ -> None))))
+                                       | XH ->
+                                         (match l with
+                                          | [] -> None
+                                          | n1 :: r0 ->
+                                            (match n1 with
+                                             | N0 -> None
+                                             | Npos p9 ->
+                                               (match p9 with
+                                                | XI p10 ->
+                                                  (match p10 with
+                                                   | XI p11 ->
+                                                     (match p11 with
+                                                      | XI p12 ->
+                                                        (match p12 with
+                                                         | XI p13 ->
+                                                           (match p13 with
+                                                            | XI p14 ->
+                                                              (match p14 with
+                                                               | XO p15 ->
+                                                                 (match p15 with
+                                                                  | XH ->
+                                                                    (match 
+                                                                    split_on
+                                                                    (Npos (XI
+                                                                    (XI (XI
+                                                                    (XI (XI
+                                                                    (XO
+                                                                    XH)))))))
+                                                                    r0 with
+                                                                    | [] ->
+                                                                    None
+                                                                    | tg :: l0 ->
+                                                                    (match l0 with
+                                                                    | [] ->
+                                                                    None
+                                                                    | n2 :: l1 ->
+                                                                    (match l1 with
+                                                                    | [] ->
+                                                                    (match 
+                                                                    hexnat tg with
+                                                                    | Some tg0 ->
+                                                                    (match 
+                                                                    hexnat n2 with
+                                                                    | Some n3 ->
+                                                                    (match n3 with
+                                                                    | O ->
+                                                                    None
+                                                                    | S n4 ->
+                                                                    if 
+                                                                    N.eqb sl
+                                                                    (Npos (XO
+                                                                    (XO (XO
+                                                                    (XO (XI
+                                                                    XH))))))
+                                                                    then 
+                                                                    Some
+                                                                    (OStore
+                                                                    (false,
+                                                                    tg0, (S
+                                                                    n4)))
+                                                                    else 
+                                                                    if 
+                                                                    N.eqb sl
+                                                                    (Npos (XI
+                                                                    (XO (XO
+                                                                    (XO (XI
+                                                                    XH))))))
+                                                                    then 
+                                                                    Some
+                                                                    (OStore
+                                                                    (true,
+                                                                    tg0, (S
+                                                                    n4)))
+                                                                    else None)
+                                                                    | None ->
+                                                                    None)
+                                                                    | None ->
+                                                                    None)
+                                                                    | _ :: _ ->
+                                                                    None)))
+                                                                  | _ -> None)
+                                                               | _ -> None)
+                                                            | _ -> None)
+                                                         | _ -> None)
+                                                      | _ -> None)
+                                                   | _ -> None)
+                                                | _ -> None))))
+                                    | XH ->
+                                      (match l with
+                                       | [] -> None
+                                       | n1 :: r0 ->
+                                         (match n1 with
+                                          | N0 -> None
+                                          | Npos p8 ->
+                                            (match p8 with
+                                             | XI p9 ->
+                                               (match p9 with
+                                                | XI p10 ->
+                                                  (match p10 with
+                                                   | XI p11 ->
+                                                     (match p11 with
+                                                      | XI p12 ->
+                                                        (match p12 with
+                                                         | XI p13 ->
+                                                           (match p13 with
+                                                            | XO p14 ->
+                                                              (match p14 with
+                                                               | XH ->
+                                                                 (match 
+                                                                  split_on
+                                                                    (Npos (XI
+                                                                    (XI (XI
+                                                                    (XI (XI
+                                                                    (XO
+                                                                    XH)))))))
+                                                                    r0 with
+                                                                  | [] -> None
+                                                                  | tg :: l0 ->
+                                                                    (match l0 with
+                                                                    | [] ->
+                                                                    None
+                                                                    | n2 :: l1 ->
+                                                                    (match l1 with
+                                                                    | [] ->
+                                                                    (match 
+                                                                    hexnat tg with
+                                                                    | Some tg0 ->
+                                                                    (match 
+                                                                    hexnat n2 with
+                                                                    | Some n3 ->
+                                                                    (match n3 with
+                                                                    | O ->
+                                                                    None
+                                                                    | S n4 ->
+                                                                    if 
+                                                                    N.eqb sl
+                                                                    (Npos (XO
+                                                                    (XO (XO
+                                                                    (XO (XI
+                                                                    XH))))))
+                                                                    then 
+                                                                    Some
+                                                                    (OStore
+                                                                    (false,
+                                                                    tg0, (S
+                                                                    n4)))
+                                                                    else 
+                                                                    if 
+                                                                    N.eqb sl
+                                                                    (Npos (XI
+                                                                    (XO (XO
+                                                                    (XO (XI
+                                                                    XH))))))
+                                                                    then 
+                                                                    Some
+                                                                    (OStore
+                                                                    (true,
+                                                                    tg0, (S
+                                                                    n4)))
+                                                                    else None)
+                                                                    | None ->
+                                                                    None)
+                                                                    | None ->
+                                                                    None)
+                                                                    | _ :: _ ->
+                                                                    None)))
+                                                               | _ -> None)
+                                                            | _ -> None)
+                                                         | _ -> None)
+                                                      | _ -> None)
+                                                   | _ -> None)
                                                 | _ -> None)
-                                             | _ -> None)
-                                          | _ -> None)
-                                       | _ -> None)
-                                    | _ -> None)
+                                             | _ -> None))))
                                  | XO p7 ->
                                    (match p7 with
+                                    | XI _ ->
+                                      (match l with
+                                       | [] -> None
+                                       | n1 :: r0 ->
+                                         (match n1 with
+                                          | N0 -> None
+                                          | Npos p9 ->
+                                            (match p9 with
+                                             | XI p10 ->
+                                               (match p10 with
+                                                | XI p11 ->
+                                                  (match p11 with
+                                                   | XI p12 ->
+                                                     (match p12 with
+                                                      | XI p13 ->
+                                                        (match p13 with
+                                                         | XI p14 ->
+                                                           (match p14 with
+                                                            | XO p15 ->
+                                                              (match p15 with
+                                                               | XH ->
+                                                                 (match 
+                                                                  split_on
+                                                                    (Npos (XI
+                                                                    (XI (XI
+                                                                    (XI (XI
+                                                                    (XO
+                                                                    XH)))))))
+                                                                    r0 with
+                                                                  | [] -> None
+                                                                  | tg :: l0 ->
+                                                                    (match l0 with
+                                                                    | [] ->
+                                                                    None
+                                                                    | n2 :: l1 ->
+                                                                    (match l1 with
+                                                                    | [] ->
+                                                                    (match 
+                                                                    hexnat tg with
+                                                                    | Some tg0 ->
+                                                                    (match 
+                                                                    hexnat n2 with
+                                                                    | Some n3 ->
+                                                                    (match n3 with
+                                                                    | O ->
+                                                                    None
+                                                                    | S n4 ->
+                                                                    if 
+                                                                    N.eqb sl
+                                                                    (Npos (XO
+                                                                    (XO (XO
+                                                                    (XO (XI
+                                                                    XH))))))
+                                                                    then 
+                                                                    Some
+                                                                    (OStore
+                                                                    (false,
+                                                                    tg0, (S
+                                                                    n4)))
+                                                                    else 
+                                                                    if 
+                                                                    N.eqb sl
+                                                                    (Npos (XI
+                                                                    (XO (XO
+                                                                    (XO (XI
+                                                                    XH))))))
+                                                                    then 
+                                                                    Some
+                                                                    (OStore
+                                                                    (true,
+                                                                    tg0, (S
+                                                                    n4)))
+                                                                    else None)
+                                                                    | None ->
+                                                                    None)
+                                                                    | None ->
+                                                                    None)
+                                                                    | _ :: _ ->
+                                                                    None)))
+                                                               | _ -> None)
+                                                            | _ -> None)
+                                                         | _ -> None)
+                                                      | _ -> None)
+                                                   | _ -> None)
+                                                | _ -> None)
+                                             | _ -> None)))
                                     | XO p8 ->
                                       (match p8 with
+                                       | XI _ ->
+                                         (match l with
+                                          | [] -> None
+                                          | n1 :: r0 ->
+                                            (match n1 with
+                                             | N0 -> None
+                                             | Npos p10 ->
+                                               (match p10 with
+                                                | XI p11 ->
+                                                  (match p11 with
+                                                   | XI p12 ->
+                                                     (match p12 with
+                                                      | XI p13 ->
+                                                        (match p13 with
+                                                         | XI p14 ->
+                                                           (match p14 with
+                                                            | XI p15 ->
+                                                              (match p15 with
+                                                               | XO p16 ->
+                                                                 (match p16 with
+                                                                  | XH ->
+                                                                    (match 
+                                                                    split_on
+                                                                    (Npos (XI
+                                                                    (XI (XI
+                                                                    (XI (XI
+                                                                    (XO
+                                                                    XH)))))))
+                                                                    r0 with
+                                                                    | [] ->
+                                                                    None
+                                                                    | tg :: l0 ->
+                                                                    (match l0 with
+                                                                    | [] ->
+                                                                    None
+                                                                    | n2 :: l1 ->
+                                                                    (match l1 with
+                                                                    | [] ->
+                                                                    (match 
+                                                                    hexnat tg with
+                                                                    | Some tg0 ->
+                                                                    (match 
+                                                                    hexnat n2 with
+                                                                    | Some n3 ->
+                                                                    (match n3 with
+                                                                    | O ->
+                                                                    None
+                                                                    | S n4 ->
+                                                                    if 
+                                                                    N.eqb sl
+                                                                    (Npos (XO
+                                                                    (XO (XO
+                                                                    (XO (XI
+                                                                    XH))))))
+                                                                    then 
+                                                                    Some
+                                                                    (OStore
+                                                                    (false,
+                                                                    tg0, (S
+                                                                    n4)))
+                                                                    else 
+                                                                    if 
+                                                                    N.eqb sl
+                                                                    (Npos (XI
+                                                                    (XO (XO
+                                                                    (XO (XI
+                                                                    XH))))))
+                                                                    then 
+                                                                    Some
+                                                                    (OStore
+                                                                    (true,
+                                                                    tg0, (S
+                                                                    n4)))
+                                                                    else None)
+                                                                    | None ->
+                                                                    None)
+                                                                    | None ->
+                                                                    None)
+                                                                    | _ :: _ ->
+                                                                    None)))
+                                                                  | _ -> None)
+                                                               | _ -> None)
+                                                            | _ -> None)
+                                                         | _ -> None)
+                                                      | _ -> None)
+                                                   | _ -> None)
+                                                | _ -> None)))
                                        | XO p9 ->
                                          (match p9 with
+                                          | XI _ ->
+                                            (match l with
+                                             | [] -> None
+                                             | n1 :: r0 ->
+                                               (match n1 with
+                                                | N0 -> None
+                                                | Npos p11 ->
+                                                  (match p11 with
+                                                   | XI p12 ->
+                                                     (match p12 with
+                                                      | XI p13 ->
+                                                        (match p13 with
+                                                         | XI p14 ->
+                                                           (match p14 with
+                                                            | XI p15 ->
+                                                              (match p15 with
+                                                               | XI p16 ->
+                                                                 (match p16 with
+                                                                  | XO p17 ->
+                                                                    (match p17 with
+                                                                    | XH ->
+                                                                    (match 
+                                                                    split_on
+                                                                    (Npos (XI
+                                                                    (XI (XI
+                                                                    (XI (XI
+                                                                    (XO
+                                                                    XH)))))))
+                                                                    r0 with
+                                                                    | [] ->
+                                                                    None
+                                                                    | tg :: l0 ->
+                                                                    (match l0 with
+                                                                    | [] ->
+                                                                    None
+                                                                    | n2 :: l1 ->
+                                                                    (match l1 with
+                                                                    | [] ->
+                                                                    (match 
+                                                                    hexnat tg with
+                                                                    | Some tg0 ->
+                                                                    (match 
+                                                                    hexnat n2 with
+                                                                    | Some n3 ->
+                                                                    (match n3 with
+                                                                    | O ->
+                                                                    None
+                                                                    | S n4 ->
+                                                                    if 
+                                                                    N.eqb sl
+                                                                    (Npos (XO
+                                                                    (XO (XO
+                                                                    (XO (XI
+                                                                    XH))))))
+                                                                    then 
+                                                                    Some
+                                                                    (OStore
+                                                                    (false,
+                                                                    tg0, (S
+                                                                    n4)))
+                                                                    else 
+                                                                    if 
+                                                                    N.eqb sl
+                                                                    (Npos (XI
+                                                                    (XO (XO
+                                                                    (XO (XI
+                                                                    XH))))))
+                                                                    then 
+                                                                    Some
+                                                                    (OStore
+                                                                    (true,
+                                                                    tg0, (S
+                                                                    n4)))
+                                                                    else None)
+                                                                    | None ->
+                                                                    None)
+                                                                    | None ->
+                                                                    None)
+                                                                    | _ :: _ ->
+                                                                    None)))
+                                                                    | _ ->
+                                                                    None)
+                                                                  | _ -> None)
+                                                               | _ -> None)
+                                                            | _ -> None)
+                                                         | _ -> None)
+                                                      | _ -> None)
+                                                   | _ -> None)))
                                           | XO p10 ->
                                             (match p10 with
                                              | XI p11 ->
                                                (match p11 with
                                                 | XH ->
                                                   (match l with
-                                                   | [] -> Some (OStore false)
-                                                   | _ :: _ -> None)
+                                                   | [] ->
+                                                     Some (OStore (false, O,
+                                                       (S O)))
+                                                   | n1 :: r0 ->
+                                                     (match n1 with
+                                                      | N0 -> None
+                                                      | Npos p12 ->
+                                                        (match p12 with
+                                                         | XI p13 ->
+                                                           (match p13 with
+                                                            | XI p14 ->
+                                                              (match p14 with
+                                                               | XI p15 ->
+                                                                 (match p15 with
+                                                                  | XI p16 ->
+                                                                    (match p16 with
+                                                                    | XI p17 ->
+                                                                    (match p17 with
+                                                                    | XO p18 ->
+                                                                    (match p18 with
+                                                                    | XH ->
+                                                                    (match 
+                                                                    split_on
+                                                                    (Npos (XI
+                                                                    (XI (XI
+                                                                    (XI (XI
+                                                                    (XO
+                                                                    XH)))))))
+                                                                    r0 with
+                                                                    | [] ->
+                                                                    None
+                                                                    | tg :: l0 ->
+                                                                    (match l0 with
+                                                                    | [] ->
+                                                                    None
+                                                                    | n2 :: l1 ->
+                                                                    (match l1 with
+                                                                    | [] ->
+                                                                    (match 
+                                                                    hexnat tg with
+                                                                    | Some tg0 ->
+                                                                    (match 
+                                                                    hexnat n2 with
+                                                                    | Some n3 ->
+                                                                    (match n3 with
+                                                                    | O ->
+                                                                    None
+                                                                    | S n4 ->
+                                                                    if 
+                                                                    N.eqb sl
+                                                                    (Npos (XO
+                                                                    (XO (XO
+                                                                    (XO (XI
+                                                                    XH))))))
+                                                                    then 
+                                                                    Some
+                                                                    (OStore
+                                                                    (false,
+                                                                    tg0, (S
+                                                                    n4)))
+                                                                    else 
+                                                                    if 
+                                                                    N.eqb sl
+                                                                    (Npos (XI
+                                                                    (XO (XO
+                                                                    (XO (XI
+                                                                    XH))))))
+                                                                    then 
+                                                                    Some
+                                                                    (OStore
+                                                                    (true,
+                                                                    tg0, (S
+                                                                    n4)))
+                                                                    else None)
+                                                                    | None ->
+                                                                    None)
+                                                                    | None ->
+                                                                    None)
+                                                                    | _ :: _ ->
+                                                                    None)))
+                                                                    | _ ->
+                                                                    None)
+                                                                    | _ ->
+                                                                    None)
+                                                                    | _ ->
+                                                                    None)
+                                                                  | _ -> None)
+                                                               | _ -> None)
+                                                            | _ -> None)
+                                                         | _ -> None)))
+                                                | _ ->
+                                                  (match l with
+                                                   | [] -> None
+                                                   | n1 :: r0 ->
+                                                     (match n1 with
+                                                      | N0 -> None
+                                                      | Npos p13 ->
+                                                        (match p13 with
+                                                         | XI p14 ->
+                                                           (match p14 with
+                                                            | XI p15 ->
+                                                              (match p15 with
+                                                               | XI p16 ->
+                                                                 (match p16 with
+                                                                  | XI p17 ->
+                                                                    (match p17 with
+                                                                    | XI p18 ->
+                                                                    (match p18 with
+                                                                    | XO p19 ->
+                                                                    (match p19 with
+                                                                    | XH ->
+                                                                    (match 
+                                                                    split_on
+                                                                    (Npos (XI
+                                                                    (XI (XI
+                                                                    (XI (XI
+                                                                    (XO
+                                                                    XH)))))))
+                                                                    r0 with
+                                                                    | [] ->
+                                                                    None
+                                                                    | tg :: l0 ->
+                                                                    (match l0 with
+                                                                    | [] ->
+                                                                    None
+                                                                    | n2 :: l1 ->
+                                                                    (match l1 with
+                                                                    | [] ->
+                                                                    (match 
+                                                                    hexnat tg with
+                                                                    | Some tg0 ->
+                                                                    (match 
+                                                                    hexnat n2 with
+                                                                    | Some n3 ->
+                                                                    (match n3 with
+                                                                    | O ->
+                                                                    None
+                                                                    | S n4 ->
+                                                                    if 
+                                                                    N.eqb sl
+                                                                    (Npos (XO
+                                                                    (XO (XO
+                                                                    (XO (XI
+                                                                    XH))))))
+                                                                    then 
+                                                                    Some
+                                                                    (OStore
+                                                                    (false,
+                                                                    tg0, (S
+                                                                    n4)))
+                                                                    else 
+                                                                    if 
+                                                                    N.eqb sl
+                                                                    (Npos (XI
+                                                                    (XO (XO
+                                                                    (XO (XI
+                                                                    XH))))))
+                                                                    then 
+                                                                    Some
+                                                                    (OStore
+                                                                    (true,
+                                                                    tg0, (S
+                                                                    n4)))
+                                                                    else None)
+                                                                    | None ->
+                                                                    None)
+                                                                    | None ->
+                                                                    None)
+                                                                    | _ :: _ ->
+                                                                    None)))
+                                                                    | _ ->
+                                                                    None)
+                                                                    | _ ->
+                                                                    None)
+                                                                    | _ ->
+                                                                    None)
+                                                                  | _ -> None)
+                                                               | _ -> None)
+                                                            | _ -> None)
+                                                         | _ -> None))))
+                                             | XO _ ->
+                                               (match l with
+                                                | [] -> None
+                                                | n1 :: r0 ->
+                                                  (match n1 with
+                                                   | N0 -> None
+                                                   | Npos p12 ->
+                                                     (match p12 with
+                                                      | XI p13 ->
+                                                        (match p13 with
+                                                         | XI p14 ->
+                                                           (match p14 with
+                                                            | XI p15 ->
+                                                              (match p15 with
+                                                               | XI p16 ->
+                                                                 (match p16 with
+                                                                  | XI p17 ->
+                                                                    (match p17 with
+                                                                    | XO p18 ->
+                                                                    (match p18 with
+                                                                    | XH ->
+                                                                    (match 
+                                                                    split_on
+                                                                    (Npos (XI
+                                                                    (XI (XI
+                                                                    (XI (XI
+                                                                    (XO
+                                                                    XH)))))))
+                                                                    r0 with
+                                                                    | [] ->
+                                                                    None
+                                                                    | tg :: l0 ->
+                                                                    (match l0 with
+                                                                    | [] ->
+                                                                    None
+                                                                    | n2 :: l1 ->
+                                                                    (match l1 with
+                                                                    | [] ->
+                                                                    (match 
+                                                                    hexnat tg with
+                                                                    | Some tg0 ->
+                                                                    (match 
+                                                                    hexnat n2 with
+                                                                    | Some n3 ->
+                                                                    (match n3 with
+                                                                    | O ->
+                                                                    None
+                                                                    | S n4 ->
+                                                                    if 
+                                                                    N.eqb sl
+                                                                    (Npos (XO
+                                                                    (XO (XO
+                                                                    (XO (XI
+                                                                    XH))))))
+                                                                    then 
+                                                                    Some
+                                                                    (OStore
+                                                                    (false,
+                                                                    tg0, (S
+                                                                    n4)))
+                                                                    else 
+                                                                    if 
+                                                                    N.eqb sl
+                                                                    (Npos (XI
+                                                                    (XO (XO
+                                                                    (XO (XI
+                                                                    XH))))))
+                                                                    then 
+                                                                    Some
+                                                                    (OStore
+                                                                    (true,
+                                                                    tg0, (S
+                                                                    n4)))
+                                                                    else None)
+                                                                    | None ->
+                                                                    None)
+                                                                    | None ->
+                                                                    None)
+                                                                    | _ :: _ ->
+                                                                    None)))
+                                                                    | _ ->
+                                                                    None)
+                                                                    | _ ->
+                                                                    None)
+                                                                  | _ -> None)
+                                                               | _ -> None)
+                                                            | _ -> None)
+                                                         | _ -> None)
+                                                      | _ -> None)))
+                                             | XH ->
+                                               (match l with
+                                                | [] -> None
+                                                | n1 :: r0 ->
+                                                  (match n1 with
+                                                   | N0 -> None
+                                                   | Npos p11 ->
+                                                     (match p11 with
+                                                      | XI p12 ->
+                                                        (match p12 with
+                                                         | XI p13 ->
+                                                           (match p13 with
+                                                            | XI p14 ->
+                                                              (match p14 with
+                                                               | XI p15 ->
+                                                                 (match p15 with
+                                                                  | XI p16 ->
+                                                                    (match p16 with
+                                                                    | XO p17 ->
+                                                                    (match p17 with
+                                                                    | XH ->
+                                                                    (match 
+                                                                    split_on
+                                                                    (Npos (XI
+                                                                    (XI (XI
+                                                                    (XI (XI
+                                                                    (XO
+                                                                    XH)))))))
+                                                                    r0 with
+                                                                    | [] ->
+                                                                    None
+                                                                    | tg :: l0 ->
+                                                                    (match l0 with
+                                                                    | [] ->
+                                                                    None
+                                                                    | n2 :: l1 ->
+                                                                    (match l1 with
+                                                                    | [] ->
+                                                                    (match 
+                                                                    hexnat tg with
+                                                                    | Some tg0 ->
+                                                                    (match 
+                                                                    hexnat n2 with
+                                                                    | Some n3 ->
+                                                                    (match n3 with
+                                                                    | O ->
+                                                                    None
+                                                                    | S n4 ->
+                                                                    if 
+                                                                    N.eqb sl
+                                                                    (Npos (XO
+                                                                    (XO (XO
+                                                                    (XO (XI
+                                                                    XH))))))
+                                                                    then 
+                                                                    Some
+                                                                    (OStore
+                                                                    (false,
+                                                                    tg0, (S
+                                                                    n4)))
+                                                                    else 
+                                                                    if 
+                                                                    N.eqb sl
+                                                                    (Npos (XI
+                                                                    (XO (XO
+                                                                    (XO (XI
+                                                                    XH))))))
+                                                                    then 
+                                                                    Some
+                                                                    (OStore
+                                                                    (true,
+                                                                    tg0, (S
+                                                                    n4)))
+                                                                    else None)
+                                                                    | None ->
+                                                                    None)
+                                                                    | None ->
+                                                                    None)
+                                                                    | _ :: _ ->
+                                                                    None)))
+                                                                    | _ ->
+                                                                    None)
+                                                                    | _ ->
+                                                                    None)
+                                                                  | _ -> None)
+                                                               | _ -> None)
+                                                            | _ -> None)
+                                                         | _ -> None)
+                                                      | _ -> None))))
+                                          | XH ->
+                                            (match l with
+                                             | [] -> None
+                                             | n1 :: r0 ->
+                                               (match n1 with
+                                                | N0 -> None
+                                                | Npos p10 ->
+                                                  (match p10 with
+                                                   | XI p11 ->
+                                                     (match p11 with
+                                                      | XI p12 ->
+                                                        (match p12 with
+                                                         | XI p13 ->
+                                                           (match p13 with
+                                                            | XI p14 ->
+                                                              (match p14 with
+                                                               | XI p15 ->
+                                                                 (match p15 with
+                                                                  | XO p16 ->
+                                                                    (match p16 with
+                                                                    | XH ->
+                                                                    (match 
+                                                                    split_on
+                                                                    (Npos (XI
+                                                                    (XI (XI
+                                                                    (XI (XI
+                                                                    (XO
+                                                                    XH)))))))
+                                                                    r0 with
+                                                                    | [] ->
+                                                                    None
+                                                                    | tg :: l0 ->
+                                                                    (match l0 with
+                                                                    | [] ->
+                                                                    None
+                                                                    | n2 :: l1 ->
+                                                                    (match l1 with
+                                                                    | [] ->
+                                                                    (match 
+                                                                    hexnat tg with
+                                                                    | Some tg0 ->
+                                                                    (match 
+                                                                    hexnat n2 with
+                                                                    | Some n3 ->
+                                                                    (match n3 with
+                                                                    | O ->
+                                                                    None
+                                                                    | S n4 ->
+                                                                    if 
+                                                                    N.eqb sl
+                                                                    (Npos (XO
+                                                                    (XO (XO
+                                                                    (XO (XI
+                                                                    XH))))))
+                                                                    then 
+                                                                    Some
+                                                                    (OStore
+                                                                    (false,
+                                                                    tg0, (S
+                                                                    n4)))
+                                                                    else 
+                                                                    if 
+                                                                    N.eqb sl
+                                                                    (Npos (XI
+                                                                    (XO (XO
+                                                                    (XO (XI
+                                                                    XH))))))
+                                                                    then 
+                                                                    Some
+                                                                    (OStore
+                                                                    (true,
+                                                                    tg0, (S
+                                                                    n4)))
+                                                                    else None)
+                                                                    | None ->
+                                                                    None)
+                                                                    | None ->
+                                                                    None)
+                                                                    | _ :: _ ->
+                                                                    None)))
+                                                                    | _ ->
+                                                                    None)
+                                                                  | _ -> None)
+                                                               | _ -> None)
+                                                            | _ -> None)
+                                                         | _ -> None)
+                                                      | _ -> None)
+                                                   | _ -> None))))
+                                       | XH ->
+                                         (match l with
+                                          | [] -> None
+                                          | n1 :: r0 ->
+                                            (match n1 with
+                                             | N0 -> None
+                                             | Npos p9 ->
+                                               (match p9 with
+                                                | XI p10 ->
+                                                  (match p10 with
+                                                   | XI p11 ->
+                                                     (match p11 with
+                                                      | XI p12 ->
+                                                        (match p12 with
+                                                         | XI p13 ->
+                                                           (match p13 with
+                                                            | XI p14 ->
+                                                              (match p14 with
+                                                               | XO p15 ->
+                                                                 (match p15 with
+                                                                  | XH ->
+                                                                    (match 
+                                                                    split_on
+                                                                    (Npos (XI
+                                                                    (XI (XI
+                                                                    (XI (XI
+                                                                    (XO
+                                                                    XH)))))))
+                                                                    r0 with
+                                                                    | [] ->
+                                                                    None
+                                                                    | tg :: l0 ->
+                                                                    (match l0 with
+                                                                    | [] ->
+                                                                    None
+                                                                    | n2 :: l1 ->
+                                                                    (match l1 with
+                                                                    | [] ->
+                                                                    (match 
+                                                                    hexnat tg with
+                                                                    | Some tg0 ->
+                                                                    (match 
+                                                                    hexnat n2 with
+                                                                    | Some n3 ->
+                                                                    (match n3 with
+                                                                    | O ->
+                                                                    None
+                                                                    | S n4 ->
+                                                                    if 
+                                                                    N.eqb sl
+                                                                    (Npos (XO
+                                                                    (XO (XO
+                                                                    (XO (XI
+                                                                    XH))))))
+                                                                    then 
+                                                                    Some
+                                                                    (OStore
+                                                                    (false,
+                                                                    tg0, (S
+                                                                    n4)))
+                                                                    else 
+                                                                    if 
+                                                                    N.eqb sl
+                                                                    (Npos (XI
+                                                                    (XO (XO
+                                                                    (XO (XI
+                                                                    XH))))))
+                                                                    then 
+                                                                    Some
+                                                                    (OStore
+                                                                    (true,
+                                                                    tg0, (S
+                                                                    n4)))
+                                                                    else None)
+                                                                    | None ->
+                                                                    None)
+                                                                    | None ->
+                                                                    None)
+                                                                    | _ :: _ ->
+                                                                    None)))
+                                                                  | _ -> None)
+                                                               | _ -> None)
+                                                            | _ -> None)
+                                                         | _ -> None)
+                                                      | _ -> None)
+                                                   | _ -> None)
+                                                | _ -> None))))
+                                    | XH ->
+                                      (match l with
+                                       | [] -> None
+                                       | n1 :: r0 ->
+                                         (match n1 with
+                                          | N0 -> None
+                                          | Npos p8 ->
+                                            (match p8 with
+                                             | XI p9 ->
+                                               (match p9 with
+                                                | XI p10 ->
+                                                  (match p10 with
+                                                   | XI p11 ->
+                                                     (match p11 with
+                                                      | XI p12 ->
+                                                        (match p12 with
+                                                         | XI p13 ->
+                                                           (match p13 with
+                                                            | XO p14 ->
+                                                              (match p14 with
+                                                               | XH ->
+                                                                 (match 
+                                                                  split_on
+                                                                    (Npos (XI
+                                                                    (XI (XI
+                                                                    (XI (XI
+                                                                    (XO
+                                                                    XH)))))))
+                                                                    r0 with
+                                                                  | [] -> None
+                                                                  | tg :: l0 ->
+                                                                    (match l0 with
+                                                                    | [] ->
+                                                                    None
+                                                                    | n2 :: l1 ->
+                                                                    (match l1 with
+                                                                    | [] ->
+                                                                    (match 
+                                                                    hexnat tg with
+                                                                    | Some tg0 ->
+                                                                    (match 
+                                                                    hexnat n2 with
+                                                                    | Some n3 ->
+                                                                    (match n3 with
+                                                                    | O ->
+                                                                    None
+                                                                    | S n4 ->
+                                                                    if 
+                                                                    N.eqb sl
+                                                                    (Npos (XO
+                                                                    (XO (XO
+                                                                    (XO (XI
+                                                                    XH))))))
+                                                                    then 
+                                                                    Some
+                                                                    (OStore
+                                                                    (false,
+                                                                    tg0, (S
+                                                                    n4)))
+                                                                    else 
+                                                                    if 
+                                                                    N.eqb sl
+                                                                    (Npos (XI
+                                                                    (XO (XO
+                                                                    (XO (XI
+                                                                    XH))))))
+                                                                    then 
+                                                                    Some
+                                                                    (OStore
+                                                                    (true,
+                                                                    tg0, (S
+                                                                    n4)))
+                                                                    else None)
+                                                                    | None ->
+                                                                    None)
+                                                                    | None ->
+                                                                    None)
+                                                                    | _ :: _ ->
+                                                                    None)))
+                                                               | _ -> None)
+                                                            | _ -> None)
+                                                         | _ -> None)
+                                                      | _ -> None)
+                                                   | _ -> None)
+                                                | _ -> None)
+                                             | _ -> None))))
+                                 | XH ->
+                                   (match l with
+                                    | [] -> None
+                                    | n1 :: r0 ->
+                                      (match n1 with
+                                       | N0 -> None
+                                       | Npos p7 ->
+                                         (match p7 with
+                                          | XI p8 ->
+                                            (match p8 with
+                                             | XI p9 ->
+                                               (match p9 with
+                                                | XI p10 ->
+                                                  (match p10 with
+                                                   | XI p11 ->
+                                                     (match p11 with
+                                                      | XI p12 ->
+                                                        (match p12 with
+                                                         | XO p13 ->
+                                                           (match p13 with
+                                                            | XH ->
+                                                              (match 
+                                                               split_on (Npos
+                                                                 (XI (XI (XI
+                                                                 (XI (XI (XO
+                                                                 XH))))))) r0 with
+                                                               | [] -> None
+                                                               | tg :: l0 ->
+                                                                 (match l0 with
+                                                                  | [] -> None
+                                                                  | n2 :: l1 ->
+                                                                    (match l1 with
+                                                                    | [] ->
+                                                                    (match 
+                                                                    hexnat tg with
+                                                                    | Some tg0 ->
+                                                                    (match 
+                                                                    hexnat n2 with
+                                                                    | Some n3 ->
+                                                                    (match n3 with
+                                                                    | O ->
+                                                                    None
+                                                                    | S n4 ->
+                                                                    if 
+                                                                    N.eqb sl
+                                                                    (Npos (XO
+                                                                    (XO (XO
+                                                                    (XO (XI
+                                                                    XH))))))
+                                                                    then 
+                                                                    Some
+                                                                    (OStore
+                                                                    (false,
+                                                                    tg0, (S
+                                                                    n4)))
+                                                                    else 
+                                                                    if 
+                                                                    N.eqb sl
+                                                                    (Npos (XI
+                                                                    (XO (XO
+                                                                    (XO (XI
+                                                                    XH))))))
+                                                                    then 
+                                                                    Some
+                                                                    (OStore
+                                                                    (true,
+                                                                    tg0, (S
+                                                                    n4)))
+                                                                    else None)
+                                                                    | None ->
+                                                                    None)
+                                                                    | None ->
+                                                                    None)
+                                                                    | _ :: _ ->
+                                                                    None)))
+                                                            | _ -> None)
+                                                         | _ -> None)
+                                                      | _ -> None)
+                                                   | _ -> None)
                                                 | _ -> None)
                                              | _ -> None)
-                                          | _ -> None)
-                                       | _ -> None)
-                                    | _ -> None)
-                                 | XH -> None)))
+                                          | _ -> None))))))
                         | _ -> None)
                      | _ -> None)
                   | _ -> None)
@@ -2443,6 +4518,13 @@ let parse_op14 = function
                   | _ -> None)
                | XO p3 ->
                  (match p3 with
+                  | XI p4 ->
+                    (match p4 with
+                     | XO p5 ->
+                       (match p5 with
+                        | XH -> option_map (fun x -> OTrunc x) (hexnat r)
+                        | _ -> None)
+                     | _ -> None)
                   | XO p4 ->
                     (match p4 with
                      | XO p5 ->
@@ -2450,7 +4532,7 @@ let parse_op14 = function
                         | XH -> option_map (fun x -> ODelete x) (hexnat r)
                         | _ -> None)
                      | _ -> None)
-                  | _ -> None)
+                  | XH -> None)
                | XH -> None)
             | XO p2 ->
               (match p2 with
@@ -2873,11 +4955,18 @@ let k_c14 =
   (Npos (XI (XI (XO (XO (XO (XI XH))))))) :: ((Npos (XI (XO (XO (XO (XI
     XH)))))) :: ((Npos (XO (XO (XI (XO (XI XH)))))) :: []))
 
+(** val k_c06 : str **)
+
+let k_c06 =
+  (Npos (XI (XI (XO (XO (XO (XI XH))))))) :: ((Npos (XO (XO (XO (XO (XI
+    XH)))))) :: ((Npos (XO (XI (XI (XO (XI XH)))))) :: []))
+
 (** val run_sched : str list -> str **)
 
 let run_sched = function
 | [] -> s_bad
-| sc :: rest -> if str_eqb sc k_c14 then run_c14 rest else s_bad
+| sc :: rest ->
+  if (||) (str_eqb sc k_c14) (str_eqb sc k_c06) then run_c14 rest else s_bad
 
 (** val k_enc : str **)
 
